@@ -279,6 +279,21 @@ func vhQuickOrder() {
 	}
 }
 
+// vhDistinctKeys: the DH public keys of the two parties are pairwise distinct
+// (equal keys need equal random exponents on both sides).
+func vhDistinctKeys(a, b *vhParty) {
+	ak := []*big.Int{a.c.keys.ourCurrentDHKeys.pub, a.c.keys.ourPreviousDHKeys.pub}
+	bk := []*big.Int{b.c.keys.ourCurrentDHKeys.pub, b.c.keys.ourPreviousDHKeys.pub}
+	for _, x := range ak {
+		for _, y := range bk {
+			if x != nil && y != nil {
+				vAssume(!eq(x, y))
+			}
+		}
+	}
+	vNote("the two parties never draw the same DH exponent (their DH public keys are pairwise distinct)")
+}
+
 // vhSetCounters installs per-pair counters for the pair A uses when sending
 // now: sender counter cs (0 = fresh), receiver's highest seen counter cr < cs.
 func vhSetCounters(snd, rcv *vhParty, cs, cr uint64) {
@@ -305,6 +320,24 @@ func vhOtherCounters(p *vhParty, name string) {
 			e := &keyPairCounter{ourKeyID: o, theirKeyID: t, ourCounter: vU64(name + "our"), theirCounter: vU64(name + "their")}
 			k.counterHistory.counters = append(k.counterHistory.counters, e)
 		}
+	}
+}
+
+// vhAnyAKEState: a key exchange may be under way in any message state (a
+// refresh, or a restart after the peer ended the session): none, or any of
+// the four authentication states.
+func vhAnyAKEState(c *Conversation) {
+	switch vChoose("akeState", 5) {
+	case 0:
+		c.ake = nil
+	case 1:
+		c.ake = &ake{state: authStateNone{}}
+	case 2:
+		c.ake = &ake{state: authStateAwaitingDHKey{}}
+	case 3:
+		c.ake = &ake{state: authStateAwaitingRevealSig{}}
+	case 4:
+		c.ake = &ake{state: authStateAwaitingSig{}}
 	}
 }
 
